@@ -5,6 +5,7 @@ package snaps
 import (
 	"encoding/json"
 	"os"
+	"strconv"
 	"testing"
 
 	"github.com/gkampitakis/go-snaps/internal/vxrt"
@@ -21,12 +22,25 @@ func TestVXReplay(t *testing.T) {
 	if !ok {
 		t.Fatalf("unknown harness %q", os.Getenv("VX_HARNESS"))
 	}
-	if err := vxrt.Begin(file); err != nil {
-		t.Fatal(err)
+	// schedule-dependent counterexamples cannot be forced natively: the scenario is
+	// repeated with real goroutines until the violation shows (or the budget ends)
+	stress, _ := strconv.Atoi(os.Getenv("VX_STRESS"))
+	if stress < 1 {
+		stress = 1
 	}
+	var o vxrt.Outcome
 	inapplicable := checkOracles(file)
-	vxrt.Run(fn)
-	o := vxrt.End()
+	for it := 0; it < stress; it++ {
+		if err := vxrt.Begin(file); err != nil {
+			t.Fatal(err)
+		}
+		vxrt.Run(fn)
+		o = vxrt.End()
+		o.Iterations = it + 1
+		if len(o.Failures) > 0 || o.Mismatch != "" || o.AssumeFailed {
+			break
+		}
+	}
 	if inapplicable != "" && o.Inapplicable == "" {
 		o.Inapplicable = inapplicable
 	}
